@@ -200,6 +200,35 @@ def r2_ref_patterns(text, log):
                         after=norm_ws('%s let Some(%s__r) =%s let %s = *%s__r;' % (mm.group(1), nm, text[mm.end():ob + 1], nm, nm))))
         last = ob + 1
     out.append(text[last:])
+    text = ''.join(out)
+    # let PATTERN-with-&x = EXPR [else { .. }];   ->  pattern with x__r, followed by `let x = *x__r;`
+    sn_mask = code_mask(text)
+    out = []
+    last = 0
+    for kwm in re.finditer(r'\blet\b', text):
+        if sn_mask[kwm.start()] != CODE or kwm.start() < last:
+            continue
+        mm = re.compile(r'let\s+([^=;]*?&[^=;]*?)=(?!=)').match(text, kwm.start())
+        if not mm:
+            continue
+        pat = mm.group(1)
+        if re.match(r'\s*(mut\s+)?[a-z_][a-z0-9_]*\s*(:[^=]*)?$', pat):
+            continue   # `let x: &T = ..` is a type, not a pattern
+        names = re.findall(r'&\s*(?:mut\s+)?([a-z_][a-z0-9_]*)', pat)
+        if not names or ':' in pat.split('(')[0]:
+            continue
+        newpat = re.sub(r'&\s*([a-z_][a-z0-9_]*)', lambda m2: m2.group(1) + '__r', pat)
+        sn = Snippet(text)
+        try:
+            end = sn.stmt_end_after(mm.end())
+        except ScanError:
+            continue
+        lets = ''.join(' let %s = *%s__r;' % (nm, nm) for nm in names)
+        out.append(text[last:kwm.start()])
+        out.append('let ' + newpat + '=' + text[mm.end():end] + lets)
+        log.append(dict(rule='R2', before=norm_ws(text[kwm.start():end]), after=norm_ws('let ' + newpat + '=' + text[mm.end():end] + lets)))
+        last = end
+    out.append(text[last:])
     return ''.join(out)
 
 
